@@ -6,12 +6,22 @@ Inductive op := Op (code : N) (args : list string).
 Record case := mk_case { c_idx : nat; c_ops : list op; c_obs : list (list string) }.
 
 Definition dop := (N * list bytes)%type.
-(* "!LLLLLLLLSS" = pattern of length L (8 hex digits) with seed S; "#LLLLLLLLHHHHHHHHHHHHHHHH" = digest *)
+(* a string is a sequence of parts: two hex digits = one byte; "!LLLLLLLLSS" = pattern of length L (8 hex
+   digits) with seed S (2 hex digits).  A whole string "#LLLLLLLL<24 hex>" = digest of an observation. *)
+Fixpoint decode_parts (s : string) : bytes :=
+  match s with
+  | String "!" (String l1 (String l2 (String l3 (String l4 (String l5 (String l6 (String l7 (String l8
+      (String s1 (String s2 r)))))))))) =>
+      let n := dbe (unhex (String l1 (String l2 (String l3 (String l4 (String l5 (String l6 (String l7 (String l8 EmptyString))))))))) in
+      let sd := dbe (unhex (String s1 (String s2 EmptyString))) in
+      pattern n sd ++ decode_parts r
+  | String a (String b r) => (hexval a * 16 + hexval b) :: decode_parts r
+  | _ => []
+  end.
 Definition decode_str (s : string) : bytes :=
   match s with
-  | String "!" r => let b := unhex r in pattern (dbe (firstn 4 b)) (dbe (skipn 4 b))
   | String "#" r => let b := unhex r in [256; dbe (firstn 4 b); dbe (skipn 4 b)]
-  | _ => unhex s
+  | _ => decode_parts s
   end.
 Definition decode_op (o : op) : dop := match o with Op c a => (c, map decode_str a) end.
 Definition decode_obs (o : list (list string)) : list (list bytes) := map (map decode_str) o.
